@@ -98,6 +98,8 @@ BASIC = {
         # children that are falsy in a boolean context
         dict(name="FLeaf", base="Leaf", fields=[], body="def __len__(self):\n        return 0\n"),
         dict(name="FUnary", base="Unary", fields=[], body="def __bool__(self):\n        return False\n"),
+        # a subclass of a child-less class that adds a child field (per-class caches must not be inherited)
+        dict(name="KLeaf", base="Leaf", fields=[C("kid", "opt", ["ASTNode"], "ASTNode | None", default="None")]),
         # slotted models ("subclasses may be slotted"): @dataclass(slots=True) builds the class twice
         dict(name="SLeaf", base="ASTNode", slots=True, fields=[P("a", "str", "str")]),
         dict(name="SUnary", base="ASTNode", slots=True, fields=[C("child", "one", ["ASTNode"], "ASTNode")]),
